@@ -73,6 +73,20 @@ var stmtGroups = map[string][]stmtTarget{
 		{"go/storage/mkvs/commit.go", "tree", "commitWithHooks", "commitWithHooks"},
 		{"go/storage/mkvs/commit.go", "tree", "CommitKnown", "commitKnown"},
 	},
+	// C01: the node-local upgrade manager consulted by the multiplexer in BeginBlock / EndBlock / Commit
+	// (OasisModel/Upgrade/Manager.lean)
+	"upgrademgr": {
+		{"go/upgrade/upgrade.go", "upgradeManager", "ConsensusUpgrade", "consensusUpgrade"},
+		{"go/upgrade/upgrade.go", "upgradeManager", "flushDescriptorLocked", "flushDescriptorLocked"},
+		{"go/upgrade/api/api.go", "PendingUpgrade", "PushStage", "pushStage"},
+		{"go/upgrade/api/api.go", "PendingUpgrade", "IsCompleted", "isCompleted"},
+	},
+	// C06: the multipart (checkpoint restore) write path of the badger backend
+	// (OasisModel/NodeDB/BadgerRestore.lean)
+	"badgermultipart": {
+		{"go/storage/mkvs/db/badger/badger.go", "badgerBatch", "PutNode", "putNode"},
+		{"go/storage/mkvs/db/badger/badger.go", "badgerNodeDB", "StartMultipartInsert", "startMultipartInsert"},
+	},
 	// C04: lookup with a proof builder (OasisModel/Mkvs/Proof.lean doGet inclusion, ProofPosition.lean)
 	"lookup": {
 		{"go/storage/mkvs/lookup.go", "tree", "doGet", "doGet"},
